@@ -4,10 +4,10 @@
 import XsProps.Common
 namespace Xs.C05
 
-/-- by id ⇔ in the all-contexts stream ⇔ in its own context's stream.
-    (`f.ctx + 1 < 2^128`: the all-ones context id is known finding F12.) -/
+/-- by id ⇔ in the all-contexts stream ⇔ in its own context's stream - for every 128-bit
+    context id (the all-ones id included: its scan range is open-ended; F12, fixed) -/
 theorem lookups_agree (ops : List Op) (w : WfOps ops) (f : Frame) (hid : f.id < idBound)
-    (hc : f.ctx + 1 < idBound) :
+    (hc : f.ctx < idBound) :
     ((after ops).get f.id = some f ↔ f ∈ (after ops).iterFrames none none) ∧
     ((after ops).get f.id = some f ↔ f ∈ (after ops).iterFrames (some f.ctx) none) := by
   have h := (after_inv w).k
@@ -27,11 +27,11 @@ theorem head_exact (ops : List Op) (w : WfOps ops) (t : List Nat) (c : Nat) (ht 
 /-- the stream of the context, filtered to the topic, is what `head` looks at: same thing
     phrased through the context-scoped read -/
 theorem head_is_last_of_context_stream (ops : List Op) (w : WfOps ops) (t : List Nat) (c : Nat)
-    (ht : NulFree t) (hc : c + 1 < idBound) :
+    (ht : NulFree t) (hc : c < idBound) :
     (after ops).head t c =
       (((after ops).iterFrames (some c) none).filter (fun f => decide (f.topic = t))).getLast? := by
   have h := (after_inv w).k
-  rw [head_exact ops w t c ht (by omega), topicFrames,
+  rw [head_exact ops w t c ht hc, topicFrames,
     iterFrames_spec h (ctx := some c) (last := none)
       ⟨(by intro c' e; injection e with e; subst e; exact hc), (by intro l e; cases e)⟩,
     List.filter_filter]
